@@ -308,10 +308,12 @@ def build(U):
 
 
     tr.rw('R3', 'self.get().starts_with(string)', 'shim_starts_with(self.get(), string)')
-    tr.rw_slices(exclude=['skip_until', 'skip'])
+    tr.rw('R3', 'Some(slice.as_bytes()) == bytes.get(0..to)', 'shim_some_eq_get(slice.as_bytes(), bytes, to)')
+    tr.rw_slices(exclude=['skip'])
     tr.rw('R3', 'prefix.eq_ignore_ascii_case(string)', 'shim_eq_ignore_ascii_case(prefix, string)')
-    # skip_until: `continue` inside a for loop is not supported by Verus -> contract assumed here (listed), body checked by Kani (k_input)
-    tr.attr('    #[verifier::external_body]', fname='skip_until')
+    # skip_until: `continue` inside a for loop is not supported by Verus -> R11 (same control flow without `continue`)
+    tr.rw_continue_else()
+    tr.attr('    #[verifier::loop_isolation(false)]', fname='skip_until')
     tr.prepend_in_block("    spec fn ctx(&self) -> Ctx<'i>;\n    spec fn off(&self) -> nat;")
     for m in ['byte_offset', 'input', 'get', 'chars', 'as_position', 'span', 'match_string', 'match_insensitive', 'skip_until', 'skip', 'match_range', 'match_char_by', 'next', 'cursor', 'start', 'end', 'at_start', 'at_end']:
         sig, c = P.INPUT_SIGS[m]
@@ -353,6 +355,15 @@ def build(U):
             lemma_str_valid(self.ctx().input);
             lemma_boundary_ends(bytes_of(self.ctx()));
         }''', fname='as_position')
+    tr.body_start('''        let ghost c = self.ctx(); let ghost off0 = self.off();
+        proof { lemma_str_valid(c.input); }''', fname='skip_until')
+    tr.loop(1, it='it', fname='skip_until', inv='''            invariant self.ctx() == c, self.off() == off0, input_inv(c, off0), off0 <= from <= c.end,
+                forall|j: nat| off0 <= j < from ==> !needle_at(c, strings@, j),''')
+    tr.loop(2, it='it2', fname='skip_until', inv='''                invariant self.ctx() == c, self.off() == off0,
+                    it2.seq().len() == strings@.len(),
+                    forall|k: int| 0 <= k < it2.seq().len() ==> *it2.seq()[k] == strings@[k],
+                    forall|k: int| 0 <= k < it2.index@ ==> !is_prefix(strings@[k].spec_bytes(), rest(c, from as nat)),''')
+    tr.loop_body_start(2, '                proof { lemma_str_valid(*slice); }', fname='skip_until')
     tr.attr('    #[verifier::loop_isolation(false)]', fname='skip')
     tr.body_start('''        proof {
             lemma_str_valid(self.ctx().input);
